@@ -219,6 +219,13 @@ impl Repository {
             .context(error::TransportSnafu { url })?;
         file.write_all(&root_file_data)
             .await
+            .context(error::CacheFileWriteSnafu {
+                path: outpath.clone(),
+            })?;
+        // `tokio::fs::File` hands the write to a background thread; without a flush this function
+        // could return (and the file be dropped) before the data has reached the file.
+        file.flush()
+            .await
             .context(error::CacheFileWriteSnafu { path: outpath })
     }
 
